@@ -675,13 +675,40 @@ def shape(scenario, history):
 RESERVED_SAMPLE = {"type", "format", "license", "object", "class", "from", "in", "import", "max", "next", "filter"}
 
 
+def _used_bindings(spec, scenario, op_id):
+    """(method spec, index of the binding the caller's request selects) for the op(s) of a violation."""
+    out = []
+    for a in scenario["actors"]:
+        for op in a["ops"]:
+            if op_id is not None and op["id"] != op_id:
+                continue
+            try:
+                _, _, m = find_method(spec, op["service"], op["method"])
+            except KeyError:
+                continue
+            if not m.get("http"):
+                continue
+            val = oracle.request_valuation(op)
+            bi = next((i for i, b in enumerate(bindings(m)) if binding_matches(b, val)), None)
+            out.append((m, bi))
+    return out
+
+
 def signature(spec, scenario, rule, op_id=None):
+    # Known finding 9 has two faces (one root cause: the required-defaults table of rest_base.py.j2 is computed from
+    # the PRIMARY binding only).  The signature names the shape of the failing call itself: the request must select
+    # an ADDITIONAL binding whose body differs in kind from the primary's; any other failure of these rules keeps
+    # the bare rule as its signature and is reported as a VIOLATION.
     if rule == "required_default_missing" and scenario is not None:
-        used = {(op["service"], op["method"]) for a in scenario["actors"] for op in a["ops"] if op_id is None or op["id"] == op_id}
-        for fs, s, m in grammar.all_methods(spec):
-            if (s["name"], m["name"]) in used and m.get("http") and m["http"].get("body") == "*" and \
-                    any(a.get("body") != "*" for a in m["http"].get("additional", ())):
+        for m, bi in _used_bindings(spec, scenario, op_id):
+            bs = bindings(m)
+            if bi and bs[0].get("body") == "*" and bs[bi].get("body") != "*":
                 return "primary binding with body '*' and an additional binding with a narrower body"
+    if rule == "query_with_body_star" and scenario is not None:
+        for m, bi in _used_bindings(spec, scenario, op_id):
+            bs = bindings(m)
+            if bi and bs[0].get("body") != "*" and bs[bi].get("body") == "*":
+                return "primary binding with a narrower body and an additional binding with body '*'"
     if rule == "duplicated_field" and scenario is not None:
         used = {(op["service"], op["method"]) for a in scenario["actors"] for op in a["ops"] if op_id is None or op["id"] == op_id}
         for fs, s, m in grammar.all_methods(spec):
